@@ -53,6 +53,9 @@ func (timeoutErr) Error() string   { return "i/o timeout" }
 func (timeoutErr) Timeout() bool   { return true }
 func (timeoutErr) Temporary() bool { return true }
 
+// like the net package's own timeout error: errors.Is(err, os.ErrDeadlineExceeded) holds
+func (timeoutErr) Is(target error) bool { return target == os.ErrDeadlineExceeded }
+
 type mockConn struct {
 	w        *tcpWorld
 	id       int
@@ -60,6 +63,7 @@ type mockConn struct {
 	closed   bool
 	readQ    [][]byte
 	readEnd  string // eof | sil
+	late     [][]byte // delivered only after a read has run into the deadline once (a peer that answers too late)
 	deadline bool
 	fault    string // fault for the next Write call ("-" none)
 	written  []byte // bytes accepted during the current op
@@ -79,6 +83,9 @@ func (c *mockConn) Read(p []byte) (int, error) {
 		if c.readEnd == "sil" {
 			if !c.deadline {
 				c.w.ev(fmt.Sprintf("hang%d", c.id)) // would block for ever
+			}
+			if c.late != nil {
+				c.readQ, c.late = c.late, nil // what the peer sends after the deadline is there for whoever reads next
 			}
 			return 0, timeoutErr{}
 		}
@@ -288,7 +295,9 @@ func (t *tcpRun) exec(op *ttree) (out string) {
 		}
 		var pong []byte
 		cn := t.cur()
+		armed := false // this operation ran against an open connection: a PING seen below is this handshake's own
 		if cn != nil && !cn.closed {
+			armed = true
 			cn.readQ = nil
 			if helo != nil {
 				cn.readQ = splitAt(helo, len(helo)/2)
@@ -335,6 +344,9 @@ func (t *tcpRun) exec(op *ttree) (out string) {
 					pong = mk(true, ping.ClientHostname, []byte(ping.SharedKeyHexDigest))
 				case "replay":
 					pong = t.lastPong
+					if old, ok := pongsBySalt[string(salt)+"|"+string(nonce)]; ok {
+						pong = old // a PONG recorded from an earlier handshake that used this very salt and nonce
+					}
 					if pong == nil {
 						pong = mk(true, shost, hexDigest([]byte("an-earlier-salt!"), []byte(shost), nonce, t.key))
 					}
@@ -354,6 +366,7 @@ func (t *tcpRun) exec(op *ttree) (out string) {
 				}
 				if pongMode == "honest" {
 					t.lastPong = pong
+					pongsBySalt[string(salt)+"|"+string(nonce)] = pong
 				}
 				if pong != nil {
 					c.readQ = append(c.readQ, splitAt(pong, len(pong)/3)...)
@@ -382,6 +395,13 @@ func (t *tcpRun) exec(op *ttree) (out string) {
 		if t.lastPing != nil && cn != nil && len(cn.attempt) > 0 {
 			p := t.lastPing
 			x = append(x, "salt", hx(p.SharedKeySalt))
+			// salts are 128 random bits: one that was seen before in this process means a recorded PONG can be replayed
+			if armed {
+				if saltsSeen[string(p.SharedKeySalt)] {
+					x = append(x, "saltrepeat", "t")
+				}
+				saltsSeen[string(p.SharedKeySalt)] = true
+			}
 			// digest table: the instantiation of H the model is to use
 			addH := func(host string, n []byte) {
 				in := append(append(append(append([]byte{}, p.SharedKeySalt...), host...), n...), t.key...)
@@ -509,9 +529,10 @@ func (t *tcpRun) execSend(op *ttree, name string) string {
 		}
 		cn.readEnd, cn.fault, cn.written, cn.deadline = "eof", fault, nil, false
 		cn.dlRemain = -1
-		if respMode == "sil" {
+		if respMode == "sil" || respMode == "late" {
 			cn.readEnd = "sil"
 		}
+		cn.late = nil
 		cn.react = func(c *mockConn) {
 			ch, complete := wireChunk(c.written)
 			if !complete {
@@ -530,6 +551,10 @@ func (t *tcpRun) execSend(op *ttree, name string) string {
 				k = splitK
 			}
 			switch {
+			case respMode == "late": // the matching ack, but only after the client's read deadline has expired once
+				if c.late == nil && len(ch) > 0 {
+					c.late = [][]byte{ack(ch)}
+				}
 			case respMode == "match":
 				resp = ack(ch)
 			case strings.HasPrefix(respMode, "split"):
@@ -674,6 +699,9 @@ func runSeq(args []string) ([]string, string) {
 	}
 	return args, strings.Join(outs, " ")
 }
+
+var saltsSeen = map[string]bool{}
+var pongsBySalt = map[string][]byte{}
 
 func init() {
 	opsArgs["SEQ"] = runSeq
